@@ -155,6 +155,7 @@ let check_bb line f =
     cmp_line "BB" line [("spec:or", hn (api_or a b), norm_hex o); ("spec:and", hn (api_and a b), norm_hex an);
                         ("spec:xor", hn (api_xor a b), norm_hex x); ("spec:diff", hn (api_diff a b), norm_hex d);
                         ("spec:assign-ops agree", "1", agree)]
+  | ["BN"; _; _; "TRAP"; _] -> cmp_line "BN" line [("spec:bitboard iterator nth never panics", "no-TRAP", "TRAP")]
   | ["BN"; a; n; r; rest] ->
     let a = hx a and n = hx n in
     let (er, erest) = api_nth_spec a n in
@@ -405,6 +406,15 @@ let check_chess line f =
       (match parse_model f1 with
        | Some b -> cmp_line "FPP" line [("spec:accepted-board-is-playable", "1", b01 (api_spec_playable (api_abs b)))]
        | None -> cmp_line "FPP" line [("spec:accepted-board-is-playable", "1", "model-rejects:" ^ f1)])
+  | ["PE"; xa; xb; eq; za; zb; heq] ->
+    (match parse_model xa, parse_model xb with
+     | Some a, Some b ->
+       let meq = b01 (api_board_eqb a b) in
+       cmp_line "PE" line
+         ([("spec:hash: Board == compares placement, side to move, castling rights and en-passant file", meq, eq)]
+          @ (if eq = "1" then [("spec:hash: boards that compare equal have equal zobrist()", "1", b01 (norm_hex za = norm_hex zb));
+                               ("spec:hash: boards that compare equal have equal std Hash", "1", heq)] else []))
+     | _ -> cmp_line "PE" line [("model:position-rejected-by-model-parser", "accepted", "rejected")])
   | ["FR"; h; tag] ->
     (* the text was assembled by the harness from a board reached by legal play: canonical by construction (checked against the
        model writer), so the parser must accept it *)
@@ -673,7 +683,7 @@ let dispatch line =
   | ("TX" | "TS" | "TM" | "PU" | "PS" | "PF" | "PD" | "PN" | "IT") :: _ -> check_text line f
   | ("AB" | "AS") :: _ -> check_abi line f
   | "TR" :: _ -> check_tr line f
-  | ("PO" | "MV" | "CK" | "LG" | "FP" | "FR" | "BL") :: _ -> check_chess line f
+  | ("PO" | "MV" | "CK" | "LG" | "PE" | "FP" | "FR" | "BL") :: _ -> check_chess line f
   | ("BK" | "BKS") :: _ -> check_book line f
   | "WK" :: _ -> bump "WK" 0
   | "GI" :: _ -> check_gi line f
